@@ -41,8 +41,13 @@ package crypto
 //@ -- (*Key).Verify: assumed contract in zz_contracts_c30_verif.go (requires publicKey != nil; total)
 
 //@ -- BatchVerify: empty / unequal lengths / nil elements are rejected (false) before any dereference. Total.
+//@ -- C02 (T-CRYPTO): a batch that verifies consists of signatures each of which verifies on its own (SigOK is the uninterpreted predicate
+//@ -- of (*Key).Verify, zz_contracts_c30_verif.go). Batch verification is probabilistic (random linear combination): this is the assumption that
+//@ -- batch and single verification agree; the structural part (equal non-zero lengths, no nil element) is visible in the code.
 //@ assume func BatchVerify(msg, keys, sigs)
 //@   modifies nothing
+//@   ensures [c02-batch] result ==> len(keys) == len(sigs) && len(keys) > 0 &&
+//@       (forall a int :: 0 <= a && a < len(keys) ==> keys[a] != nil && sigs[a] != nil && SigOK(seq(*keys[a]), seq(msg), seq(*sigs[a])))
 
 //@ -- AggregateVerify: nil signature, empty / unordered / out-of-range signers, nil or undecodable publics are reported as errors. Total.
 //@ assume func AggregateVerify(sig, publics, signers, message)
